@@ -1,9 +1,9 @@
 (* C13 -- translation invariance of the matching-cost SPEC (Spec/Cost.v): [computable] and the value of
    every measure depend on the two images (values, masks, being inside the image) only through the
    w x w window around the pixel and the window around column c + d of the right image.
-   Then the same for the MODEL of sad / ssd, through C02's model = spec theorems. *)
+   Then the same for the MODEL of sad / ssd / census / zncc, through C02's model = spec theorems. *)
 From Coq Require Import ZArith List Bool QArith Lia.
-From Pandora Require Import Model.MatchingCost Spec.Cost Proofs.MatchingCostP.
+From Pandora Require Import Model.MatchingCost Spec.Cost Proofs.MatchingCostP Proofs.CensusP Proofs.ZnccP.
 Import ListNotations.
 Open Scope Z_scope.
 
@@ -221,4 +221,79 @@ Section ModelLocal.
                r c r' c' D Hw Ho Hs HL HR).
     reflexivity.
   Qed.
+
+  (* census (window 1, 3 or 5: the bit string fits the uint32 popcount) *)
+  Hypothesis Hww : i_w x * i_w x <= 32.
+  Theorem census_model_local : census_volume x dmin dmax r c k = census_volume y dmin dmax r' c' k.
+  Proof.
+    destruct Hcfg as (Ew & Es & Ev & En). destruct Hx as (Hw & Ho & Hs).
+    rewrite (census_model_eq_spec x dmin dmax r c k Hx Hww Hr Hc Hk).
+    rewrite (census_model_eq_spec y dmin dmax r' c' k wf_y) by (rewrite ?Ew, ?Es; assumption).
+    cbv zeta. unfold computable_in. rewrite Ew, Es, Ev, En. fold D.
+    rewrite (computable_local (i_ny x) (i_nx x) (i_ny y) (i_nx y) (i_w x) (i_s x)
+               (i_L x) (i_R x) (i_L y) (i_R y) (i_mL x) (i_mR x) (i_mL y) (i_mR y) (i_vp x) (i_nd x)
+               (i_gmin x) (i_gmax x) (i_gmin y) (i_gmax y) r c r' c' D Hw Ho Hs HL HR Hg).
+    rewrite (census_spec_local (i_ny x) (i_nx x) (i_ny y) (i_nx y) (i_w x) (i_s x)
+               (i_L x) (i_R x) (i_L y) (i_R y) (i_mL x) (i_mR x) (i_mL y) (i_mR y)
+               r c r' c' D Hw Ho Hs HL HR).
+    reflexivity.
+  Qed.
 End ModelLocal.
+
+(* zncc: the cell of the model is the integer triple (cov, varL, varR) scaled by s w^4, w^4, s^2 w^4 (C02): two
+   inputs alike on the two windows hold the SAME triple (hence the same cost, whatever evaluates
+   cov / sqrt(varL varR) from it), NaN included *)
+Lemma inject_Z_div_inj : forall a b K, (0 < K)%Q -> (inject_Z a / K == inject_Z b / K)%Q -> a = b.
+Proof.
+  intros a b K HK H. unfold Qdiv in H. apply Qmult_inj_r in H.
+  - apply inject_Z_injective. exact H.
+  - intro E. apply Qinv_lt_0_compat in HK. rewrite E in HK. discriminate.
+Qed.
+
+Section ZnccLocal.
+  Variables (x y : mc_input) (dmin dmax : Z) (r c r' c' k : Z).
+  Hypothesis Hx : wf_cfg x.
+  Hypothesis Hcfg : i_w y = i_w x /\ i_s y = i_s x /\ i_vp y = i_vp x /\ i_nd y = i_nd x.
+  Hypothesis Hr : 0 <= r < i_ny x.
+  Hypothesis Hc : 0 <= c < i_nx x.
+  Hypothesis Hr' : 0 <= r' < i_ny y.
+  Hypothesis Hc' : 0 <= c' < i_nx y.
+  Hypothesis Hk : 0 <= k < nb_disp (i_s x) dmin dmax.
+  Let h := offset (i_w x).
+  Let D := disp_scaled (i_s x) dmin k.
+  Hypothesis HL : forall a b, - h <= a <= h -> - h <= b <= h -> inp_alike_left x y r c r' c' a b.
+  Hypothesis HR : forall a b, - h <= a <= h -> - h + dfloor (i_s x) D <= b <= h + dceil (i_s x) D ->
+    inp_alike_right x y r c r' c' a b.
+  Hypothesis Hg : i_gmin x r c = i_gmin y r' c' /\ i_gmax x r c = i_gmax y r' c'.
+
+  Theorem zncc_model_local : zncc_volume x dmin dmax r c k = zncc_volume y dmin dmax r' c' k.
+  Proof.
+    pose proof (wf_y x y Hx Hcfg) as Hy.
+    destruct Hcfg as (Ew & Es & Ev & En). destruct Hx as (Hw & Ho & Hs).
+    pose proof (zncc_model_eq_spec x dmin dmax r c k Hx Hr Hc Hk) as X.
+    assert (Hk' : 0 <= k < nb_disp (i_s y) dmin dmax) by (rewrite Es; exact Hk).
+    pose proof (zncc_model_eq_spec y dmin dmax r' c' k Hy Hr' Hc' Hk') as Y.
+    cbv zeta in X, Y. unfold computable_in in X, Y. rewrite Ew, Es, Ev, En in Y. fold D in X, Y.
+    rewrite <- (computable_local (i_ny x) (i_nx x) (i_ny y) (i_nx y) (i_w x) (i_s x)
+               (i_L x) (i_R x) (i_L y) (i_R y) (i_mL x) (i_mR x) (i_mL y) (i_mR y) (i_vp x) (i_nd x)
+               (i_gmin x) (i_gmax x) (i_gmin y) (i_gmax y) r c r' c' D Hw Ho Hs HL HR Hg) in Y.
+    destruct (zncc_spec_local (i_ny x) (i_nx x) (i_ny y) (i_nx y) (i_w x) (i_s x)
+               (i_L x) (i_R x) (i_L y) (i_R y) (i_mL x) (i_mR x) (i_mL y) (i_mR y)
+               r c r' c' D Hw Ho Hs HL HR) as (Ecov & Evl & Evr).
+    destruct (zncc_volume x dmin dmax r c k) as [[[cm vlm] vrm]|];
+      destruct (zncc_volume y dmin dmax r' c' k) as [[[cm' vlm'] vrm']|].
+    - destruct X as (_ & (X1 & X2 & X3) & _). destruct Y as (_ & (Y1 & Y2 & Y3) & _).
+      cbv zeta in Y1, Y2, Y3. rewrite Ew, Es in Y1, Y2, Y3. rewrite <- Ecov in Y1. rewrite <- Evl in Y2. rewrite <- Evr in Y3.
+      assert (P4 : (0 < inject_Z (i_w x * i_w x * (i_w x * i_w x)))%Q) by (apply inject_Z_pos; nia).
+      assert (Ps : (0 < inject_Z (i_s x))%Q) by (apply inject_Z_pos; lia).
+      assert (Pss : (0 < inject_Z (i_s x * i_s x))%Q) by (apply inject_Z_pos; nia).
+      rewrite X1 in Y1. rewrite X2 in Y2. rewrite X3 in Y3.
+      apply inject_Z_div_inj in Y1; [|apply Qmult_lt_0_compat; assumption].
+      apply inject_Z_div_inj in Y2; [|assumption].
+      apply inject_Z_div_inj in Y3; [|apply Qmult_lt_0_compat; assumption].
+      subst. reflexivity.
+    - destruct X as (X & _). congruence.
+    - destruct Y as (Y & _). congruence.
+    - reflexivity.
+  Qed.
+End ZnccLocal.
